@@ -2,17 +2,17 @@ SPECIFICATION Spec
 CONSTANTS
   Validators = {1, 2}
   SlotSpace = {2, 3}
-  Nows = {1, 2, 3, 6}
-  Committees = {0, 1}
+  Nows = {2, 3, 6}
+  Committees = {0}
   Sizes = {8}
-  Targets = {2, 16}
+  Targets = {2}
   HVals = {0, 1}
   HMod = 8
   MaxDuties = 2
   MaxSubs = 1
   SPE = 2
   Ep = 1
-  MaxRefresh = 1
-  MaxChanges = 1
+  MaxRefresh = 2
+  MaxChanges = 2
 INVARIANTS TypeOK AllFutureSubscribed AggregatorRuleExact InfoPrefersAggregator InfoInForceComplete EveryAggregatorCommitteeScheduled NoAggregationForPastSlot
 CHECK_DEADLOCK FALSE
